@@ -210,6 +210,26 @@ def gen_step(ctx):
     return {"a": "step", "h": h, "mode": 4, "catch": True}
 
 
+def gen_aio(ctx, depth):
+    """A batch of fixture coroutines run as tasks on the simulated asyncio loop."""
+    rng = ctx.rng
+    tasks = []
+    for _ in range(rng.choice([1, 2, 3, 4])):
+        t = pick_target(ctx, want_body=("coro",))
+        if t is None:
+            break
+        f, recv = t
+        args, kwargs = gen_args(ctx, f, f["kind"] in ("method", "classmethod"))
+        rc = (recv or {}).get("inst") or (recv or {}).get("cls")
+        h = ctx.next_h
+        ctx.next_h += 1
+        tasks.append({"h": h, "fid": f["fid"], "recv": recv, "args": args, "kwargs": kwargs,
+                      "script": gen_script(ctx, f, max(0, depth - 1), recv_cls=rc), "cancel_at": rng.randrange(6) if rng.random() < 0.25 else None})
+    if not tasks:
+        return None
+    return {"a": "aio", "seed": rng.getrandbits(30), "tasks": tasks, "catch": True}
+
+
 def gen_script(ctx, f, depth, recv_cls=None, top=False):
     """Action list for one activation of f (f None: the top-level driver)."""
     rng = ctx.rng
@@ -259,6 +279,11 @@ def gen_script(ctx, f, depth, recv_cls=None, top=False):
             acts.append({"a": "inner", "fid": g["fid"], "args": args, "kwargs": kwargs,
                          "script": gen_script(ctx, g, depth - 1), "catch": rng.random() < 0.7})
             continue
+        if top and ctx.kn.get("aio_p") and rng.random() < ctx.kn["aio_p"]:
+            a = gen_aio(ctx, depth)
+            if a:
+                acts.append(a)
+                continue
         if (top or r < 0.75) and ctx.next_h and rng.random() < (0.55 if top else 0.35):
             s = gen_step(ctx)
             if s:
@@ -285,6 +310,7 @@ class Mat:
         self.lp = lp
         self.tw = tw
         self.inner_handles = []
+        self.aio_stats = []
 
     def val(self, spec):
         return V.build(spec, self.lp.classes, self.tw)
@@ -298,6 +324,22 @@ class Mat:
         if recv and "inst" in recv:
             return getattr(lp.classes[recv["inst"]](), f["name"])
         return getattr(lp.classes[recv["cls"]], f["name"])
+
+    def aio_closure(self, a):
+        """Run a set of fixture coroutines as asyncio tasks on the simulated loop."""
+        from . import simloop
+
+        specs = []
+        for t in a["tasks"]:
+            callee = self.callee(t)
+            args = tuple(self.val(v) for v in t["args"])
+            kwargs = {n: self.val(v) for n, v in t["kwargs"].items()}
+            specs.append((t["h"], (lambda c=callee, x=args, k=kwargs: c(*x, **k)), self.script(t["script"], hidx=t["h"]), t.get("cancel_at")))
+
+        def run(_specs=specs, _seed=a["seed"], _box=self.aio_stats):
+            _box.append(simloop.run_tasks(_seed, _specs))
+
+        return run
 
     def script(self, acts, hidx=None):
         out = []
@@ -337,6 +379,8 @@ class Mat:
                 elif m == 2:
                     v = rt.EXC[a["v"]]
                 out.append((12, a["h"], m, v, bool(a.get("catch"))))
+            elif k == "aio":
+                out.append((16, self.aio_closure(a)))
             elif k == "await":
                 out.append((13,))
             elif k == "awaitcall":
